@@ -326,7 +326,14 @@ def _multitask(ck, repo, nf):
     why = "" if ok else ("additions must go to buffers[selected_task] only" if not tgt_ok else "the transition must be forwarded unchanged" if not fwd_ok else "exactly one member buffer receives the transition on every path")
     ck.ob("R5-task-routing", f"{cq}.add_sample", "routes-to-selected-task", ok, "; ".join(short(c, 70) for _, c in adds), why, loc(mi, fn))
     marks = stmt_calls(cfg, lambda c: isinstance(c.func, ast.Attribute) and dotted(c.func.value) == "self.active_buffers")
-    okm = len(marks) == 1 and marks[0][1].func.attr == "add" and len(marks[0][1].args) == 1 and nf.poly(marks[0][1].args[0], Scope(cfg, mi, {}, cq), marks[0][0].id).canon() == SEL and on_every_path_once(cfg, [marks[0][0].id])
+    okm = False
+    if len(marks) == 1 and marks[0][1].func.attr == "add" and len(marks[0][1].args) == 1:
+        marked = nf.poly(marks[0][1].args[0], Scope(cfg, mi, {}, cq), marks[0][0].id).canon()
+        # the task is identified by its index or, equivalently, by its member buffer
+        if marked in (SEL, f"self.buffers[{SEL}]"):
+            okm = on_every_path_once(cfg, [marks[0][0].id])
+        elif "selected_task" in marked:
+            raise AnalysisError(f"{cq}.add_sample: the active set receives `{marked[:60]}` (unrecognised form)")
     ck.ob("R5-task-routing", f"{cq}.add_sample", "marks-selected-task-active", okm, "; ".join(short(c, 60) for _, c in marks), "" if okm else "exactly the task that received the transition becomes active (anything else lets sample_batch draw a task without data, or never draw one that has data)", loc(mi, fn))
     # who may change the active set: only add_sample (and __init__)
     mcls = repo.cls(cq)
